@@ -121,6 +121,20 @@ def run(ctx):
         ctx.check(r == want, "R01-cuckoo-home", st.key, st, "start(t) = (f, i1, i1 ^ hash(f))", "start returns %s" % fmt(r))
     if ii is not None:
         kick_loop(ctx, ii)
+    # bucket indexes stay inside the table: hash() reduces to [0, n_buckets) and n_buckets is a power of two (so x ^ hash < n_buckets)
+    hf = ctx.anchor(CF + "::hash")
+    ctor = ctx.anchor(CF + "::with_params_and_hash")
+    if hf is not None and ctor is not None:
+        r = TermBuilder(hf, prog).return_term()
+        nb = ("field", selfp, "n_buckets")
+        okh = r[0] == "op" and ((r[1] == "BitAnd" and mk("Sub", nb, const(1)) in r[2]) or (r[1] == "Rem" and r[2][1] == nb))
+        agg = [bi for bi, blk in enumerate(ctor.blocks) for st_ in blk.stmts if st_.k == "assign" and st_.rv.k == "aggregate" and st_.rv.j.get("adt") == CF]
+        pot = False
+        if agg:
+            fs = atomic_facts(ctor, prog, agg[0])
+            pot = any(tr and c[0] == "op" and c[1] == "is_power_of_two" and c[2][0][:2] == ("param", 3) for c, tr in fs)
+        ctx.check(okh and pot, "R01-bucket-range", hf.key, hf, "hash() is reduced modulo n_buckets and the constructor asserts n_buckets is a power of two (i ^ hash stays in range)",
+                  "bucket index %s / constructor power-of-two assert = %s: a candidate bucket can fall outside the table" % (fmt(r)[:120], pot))
     # callers pass start()'s triple
     for nm in ("insert", "query"):
         f = ctx.anchor("<%s as filters::Filter[T]>::%s" % (CF, nm))
